@@ -624,6 +624,143 @@ pub fn run_set(h: &History, obs: &mut Obs) -> Result<(), Failure> {
     Ok(())
 }
 
+/// The same history with keys that carry a tag the comparator ignores: (key, tag) ordered by key only. A sorted map
+/// keeps the key it already holds when an equal key is inserted again (BTreeMap: "the key is not updated"), so every
+/// key handed out must carry the tag of the *first* insertion since the last removal.
+pub fn run_tagged(h: &History, obs: &mut Obs) -> Result<(), Failure> {
+    let c = h.cmp;
+    let mut t = SplayTree::new(move |a: &(i32, u32), b: &(i32, u32)| c.cmp(&a.0, &b.0));
+    let mut m: BTreeMap<(i64, i64), ((i32, u32), i32)> = BTreeMap::new();
+    let mut insert = |t: &mut SplayTree<(i32, u32), i32, _>, m: &mut BTreeMap<(i64, i64), ((i32, u32), i32)>, k: i32, v: i32, tag: u32, obs: &mut Obs| -> Result<(), Failure> {
+        let got = t.insert((k, tag), v);
+        let want = match m.get_mut(&c.image(k)) {
+            Some(e) => {
+                obs.class("re-insert-of-equal-key");
+                Some(std::mem::replace(&mut e.1, v))
+            }
+            None => {
+                m.insert(c.image(k), ((k, tag), v));
+                None
+            }
+        };
+        if got != want {
+            return Err(Failure::new("model-mismatch", format!("tagged insert({},{}) returned {:?}, model {:?}", k, v, got, want)));
+        }
+        Ok(())
+    };
+    for (step, op) in h.ops.iter().enumerate() {
+        let tag = step as u32 + 1;
+        match op {
+            Op::Insert(k, v) | Op::GetMutWrite(k, v) | Op::IndexMutWrite(k, v) => insert(&mut t, &mut m, *k, *v, tag, obs)?,
+            Op::Extend(items) => {
+                for (i, &(k, v)) in items.iter().enumerate() {
+                    insert(&mut t, &mut m, k, v, tag * 1000 + i as u32, obs)?;
+                }
+            }
+            Op::Remove(k) => {
+                let got = t.remove(&(*k, 0));
+                let want = m.remove(&c.image(*k)).map(|e| e.1);
+                if got != want {
+                    bail!(step, "tagged remove({}) returned {:?}, model {:?}", k, got, want);
+                }
+            }
+            Op::Clear => {
+                t.clear();
+                m.clear();
+            }
+            Op::FindKey(k) | Op::Get(k) | Op::Contains(k) | Op::Index(k) => {
+                let got = t.find_key(&(*k, 0)).cloned();
+                let want = m.get(&c.image(*k)).map(|e| e.0);
+                if got != want {
+                    bail!(step, "find_key({}) handed out the key {:?}, a sorted map holds {:?} (key, tag of the insertion that created the entry)", k, got, want);
+                }
+            }
+            Op::Next(k) | Op::HoldRef(_, k, _) => {
+                use std::ops::Bound::*;
+                let got = t.next(&(*k, 0)).map(|(a, b)| (*a, *b));
+                let want = m.range((Excluded(c.image(*k)), Unbounded)).next().map(|(_, e)| *e);
+                if got != want {
+                    bail!(step, "next({}) handed out {:?}, a sorted map holds {:?}", k, got, want);
+                }
+            }
+            Op::Prev(k) => {
+                use std::ops::Bound::*;
+                let got = t.prev(&(*k, 0)).map(|(a, b)| (*a, *b));
+                let want = m.range((Unbounded, Excluded(c.image(*k)))).next_back().map(|(_, e)| *e);
+                if got != want {
+                    bail!(step, "prev({}) handed out {:?}, a sorted map holds {:?}", k, got, want);
+                }
+            }
+            Op::Min | Op::Max | Op::Len => {
+                let (gmin, gmax) = (t.min().cloned(), t.max().cloned());
+                let (wmin, wmax) = (m.values().next().map(|e| e.0), m.values().next_back().map(|e| e.0));
+                if gmin != wmin || gmax != wmax {
+                    bail!(step, "min/max handed out {:?}/{:?}, a sorted map holds {:?}/{:?}", gmin, gmax, wmin, wmax);
+                }
+            }
+        }
+        if t.len() != m.len() {
+            bail!(step, "tagged len() = {}, model {}", t.len(), m.len());
+        }
+    }
+    let got: Vec<((i32, u32), i32)> = t.into_iter().collect();
+    let want: Vec<((i32, u32), i32)> = m.values().cloned().collect();
+    if got != want {
+        return Err(Failure::new("iteration", format!("consuming iteration yields {:?}, a sorted map holds {:?}", got, want)));
+    }
+    Ok(())
+}
+
+/// tagged elements in a SplaySet: an element equal to one already present must not replace it
+pub fn run_tagged_set(h: &History, obs: &mut Obs) -> Result<(), Failure> {
+    let c = h.cmp;
+    let mut t = SplaySet::new(move |a: &(i32, u32), b: &(i32, u32)| c.cmp(&a.0, &b.0));
+    let mut m: BTreeMap<(i64, i64), (i32, u32)> = BTreeMap::new();
+    for (step, op) in h.ops.iter().enumerate() {
+        let tag = step as u32 + 1;
+        match op {
+            Op::Insert(k, _) | Op::GetMutWrite(k, _) | Op::IndexMutWrite(k, _) => {
+                let got = t.insert((*k, tag));
+                let want = if m.contains_key(&c.image(*k)) {
+                    obs.class("re-insert-of-equal-key");
+                    false
+                } else {
+                    m.insert(c.image(*k), (*k, tag));
+                    true
+                };
+                if got != want {
+                    bail!(step, "tagged set.insert({}) returned {}, model {}", k, got, want);
+                }
+            }
+            Op::Remove(k) => {
+                let got = t.remove(&(*k, 0));
+                let want = m.remove(&c.image(*k)).is_some();
+                if got != want {
+                    bail!(step, "tagged set.remove({}) returned {}, model {}", k, got, want);
+                }
+            }
+            Op::Clear => {
+                t.clear();
+                m.clear();
+            }
+            Op::FindKey(k) | Op::Get(k) | Op::Contains(k) | Op::Next(k) | Op::Prev(k) => {
+                let got = t.find(&(*k, 0)).cloned();
+                let want = m.get(&c.image(*k)).cloned();
+                if got != want {
+                    bail!(step, "set.find({}) handed out {:?}, a sorted set holds {:?} (element, tag of the insertion that created it)", k, got, want);
+                }
+            }
+            _ => {}
+        }
+    }
+    let got: Vec<(i32, u32)> = t.into_iter().collect();
+    let want: Vec<(i32, u32)> = m.values().cloned().collect();
+    if got != want {
+        return Err(Failure::new("iteration", format!("set iteration yields {:?}, a sorted set holds {:?}", got, want)));
+    }
+    Ok(())
+}
+
 pub fn eval_history(h: &History, want_sample: bool) -> Eval {
     use std::hash::{Hash, Hasher};
     let mut obs = Obs::default();
@@ -633,7 +770,15 @@ pub fn eval_history(h: &History, want_sample: bool) -> Eval {
         Cmp::Reversed => "cmp-reversed",
         Cmp::Mod7 => "cmp-mod7",
     });
-    let r = crate::exec::guarded(u64::MAX, || if h.set { run_set(h, &mut obs) } else { run_tree(h, &mut obs) });
+    let r = crate::exec::guarded(u64::MAX, || {
+        if h.set {
+            run_set(h, &mut obs)?;
+            run_tagged_set(h, &mut obs)
+        } else {
+            run_tree(h, &mut obs)?;
+            run_tagged(h, &mut obs)
+        }
+    });
     let result = match r {
         Ok(r) => r,
         Err(p) => Err(Failure::new("panic", format!("history panicked at {}:{}: {}", p.file, p.line, p.message))),
